@@ -52,7 +52,7 @@ type Engine struct {
 	// NonNilOnSuccess: result idx is non-nil on every return path of every
 	// callee on which the (last) error result may be nil.
 	NonNilOnSuccess func(site *ssa.Call, idx int) bool
-	Err          error
+	Err             error
 }
 
 func NewEngine(w *World) *Engine {
@@ -1480,6 +1480,10 @@ func (e *Engine) call(st *State, x *ssa.Call) ([]*State, []Path) {
 	return []*State{st}, nil
 }
 
+// oracleCallee: the callee of the dynamic call the engine is currently asking
+// its oracles about (nil: resolve from the call site).
+var oracleCallee *ssa.Function
+
 func (e *Engine) resultAV(st *State, x *ssa.Call, base string, nonNil []bool) AV {
 	sig := x.Call.Signature()
 	rs := sig.Results()
@@ -1516,7 +1520,7 @@ func (e *Engine) opaqueCall(st *State, x *ssa.Call, name string, callee *ssa.Fun
 		full = append([]AV{*recv}, args...)
 	}
 	var res AV
-	m, has := models[name]
+	m, has := lookupModel(name)
 	switch {
 	case has && m.Custom != nil:
 		res = m.Custom(e, st, x, full)
@@ -1606,6 +1610,14 @@ func (e *Engine) opaqueCall(st *State, x *ssa.Call, name string, callee *ssa.Fun
 			// repository's memory that is not reachable from its arguments
 		}
 		res = e.resultAV(st, x, fmt.Sprintf("%s#%s.%s@%s", shortName(name), x.Parent().Name(), x.Name(), st.inst()), nil)
+		// the oracles resolve the callee from the call site; a call through a
+		// function value that this path has resolved is handed over here
+		savedCallee := oracleCallee
+		oracleCallee = nil
+		if x.Call.StaticCallee() == nil && !x.Call.IsInvoke() {
+			oracleCallee = callee
+		}
+		defer func() { oracleCallee = savedCallee }()
 		if e.NonNilResult != nil {
 			rs := x.Call.Signature().Results()
 			for i := 0; i < rs.Len(); i++ {
@@ -1734,6 +1746,11 @@ func (e *Engine) builtin(st *State, x *ssa.Call, b *ssa.Builtin) AV {
 				return AV{Kind: KSeq, Elems: elems, Src: x}
 			case KSeq:
 				return AV{Kind: KSeq, Elems: append(append([]AV(nil), base.Elems...), elems...), Src: x}
+			case KSym:
+				// a fresh make([]T, 0, cap): an empty sequence whatever its capacity
+				if len(elems) > 0 && strings.HasPrefix(base.Sym, "makeslice(") && base.Inner != nil && base.Inner.Kind == KInt && base.Inner.K == 0 {
+					return AV{Kind: KSeq, Elems: elems, Src: x}
+				}
 			}
 			var names []string
 			for _, el := range elems {
@@ -1915,7 +1932,7 @@ func loopInfoOf(h *ssa.BasicBlock) *loopInfo {
 					continue
 				}
 				name := calleeName(c)
-				if m, ok := models[name]; ok && m.Pure {
+				if m, ok := lookupModel(name); ok && m.Pure {
 					continue
 				}
 				li.nonLocal = true
